@@ -75,7 +75,7 @@ def kani_part(report, tier, backend, src, allspecs, derived, defs):
         """ % {"A": A, "B": B, "TA": a_.upper(), "TB": b_.upper(), "body": body}, unwind=na + 2, key="f64 corpus %s operator set" % d.name))
     kc.add(Harness("canary_must_fail", "        let i: usize = kani::any();\n        kani::assume(i < SYN0_N);\n        assert!(SYN0_IDENTS[i].is_ref_unit());\n",
                    expect="fail", unwind=12, key="canary", symbolic=False))
-    kc.run(report, timeout=1200 if tier == "quick" else 3000, jobs=6)
+    kc.run(report, timeout=600 if tier == "quick" else 3000, jobs=6)
     return kc
 
 
